@@ -61,17 +61,17 @@ AbstractMemberFillers == MemberFillers \cup {
 OptPrefix(tag, types) == WithPrefix(tag, <<"?", ":">>, types)
 
 FillersOfKind(k) ==
-  CASE k = "@annv"  -> WithPrefix("ann", <<":">>, AllTypes) \cup {F(<<"ann-glue-ge">>, {"amb"}, <<":", "A", "<", "B", ">", "<GLUE>">>), F(<<"ann-glue-shr-eq">>, {"amb"}, <<":", "A", "<", "B", "<", "C", ">", ">", "<GLUE>">>)}
+  CASE k = "@annv"  -> WithPrefix("ann", <<":">>, AllTypes) \cup {F(<<"ann-glue-ge">>, {"amb"}, <<":", "A", "<", "B", ">", "<GLUE>">>), F(<<"ann-glue-shr-eq">>, {"amb"}, <<":", "A", "<", "B", "<", "C", ">", ">", "<GLUE>">>), F(<<"ann-glue-ushr-eq">>, {"amb"}, <<":", "A", "<", "B", "<", "C", "<", "D", ">", ">", ">", "<GLUE>">>)}
     [] k = "@annl"  -> WithPrefix("ann", <<":">>, NoUnique) \cup WithPrefix("ann-definite", <<"!", ":">>, CoreTypes)
     [] k = "@annp"  -> WithPrefix("ann", <<":">>, NoUnique) \cup OptPrefix("ann-opt", CoreTypes \cup {TypeByName("t-cond"), TypeByName("t-obj")})
                        \cup {F(<<"opt">>, {"amb"}, <<"?">>)}
     [] k = "@annpn" -> WithPrefix("ann", <<":">>, NoUnique)           \* a parameter that is followed by a required one
-    [] k = "@annpd" -> WithPrefix("ann", <<":">>, NoUnique) \cup {F(<<"ann-glue-ge">>, {"amb"}, <<":", "A", "<", "B", ">", "<GLUE>">>), F(<<"ann-glue-shr-eq">>, {"amb"}, <<":", "A", "<", "B", "<", "C", ">", ">", "<GLUE>">>)}   \* before "= default"
+    [] k = "@annpd" -> WithPrefix("ann", <<":">>, NoUnique) \cup {F(<<"ann-glue-ge">>, {"amb"}, <<":", "A", "<", "B", ">", "<GLUE>">>), F(<<"ann-glue-shr-eq">>, {"amb"}, <<":", "A", "<", "B", "<", "C", ">", ">", "<GLUE>">>), F(<<"ann-glue-ushr-eq">>, {"amb"}, <<":", "A", "<", "B", "<", "C", "<", "D", ">", ">", ">", "<GLUE>">>)}   \* before "= default"
     [] k = "@annpr" -> WithPrefix("ann", <<":">>, ArrayTypes)         \* rest parameter
     [] k = "@annf"  -> WithPrefix("ann", <<":">>, AllTypes) \cup OptPrefix("ann-opt", CoreTypes) \cup WithPrefix("ann-definite", <<"!", ":">>, CoreTypes)
                        \cup {F(<<"opt">>, {"amb"}, <<"?">>), F(<<"definite">>, {"amb", "rich"}, <<"!">>)}
     [] k = "@annfi" -> WithPrefix("ann", <<":">>, AllTypes) \cup OptPrefix("ann-opt", CoreTypes)
-                       \cup {F(<<"ann-glue-ge">>, {"amb"}, <<":", "A", "<", "B", ">", "<GLUE>">>), F(<<"ann-glue-shr-eq">>, {"amb"}, <<":", "A", "<", "B", "<", "C", ">", ">", "<GLUE>">>)}        \* field with initialiser
+                       \cup {F(<<"ann-glue-ge">>, {"amb"}, <<":", "A", "<", "B", ">", "<GLUE>">>), F(<<"ann-glue-shr-eq">>, {"amb"}, <<":", "A", "<", "B", "<", "C", ">", ">", "<GLUE>">>), F(<<"ann-glue-ushr-eq">>, {"amb"}, <<":", "A", "<", "B", "<", "C", "<", "D", ">", ">", ">", "<GLUE>">>)}        \* field with initialiser
     [] k = "@annfp" -> WithPrefix("ann", <<":">>, NoUnique)           \* private-name field
     [] k = "@annc"  -> {F(<<"ann", "t-any">>, {}, <<":", "any">>), F(<<"ann", "t-unknown">>, {}, <<":", "unknown">>)}
     [] k = "@ret"   -> WithPrefix("ret", <<":">>, NoUnique)
